@@ -14,13 +14,19 @@
 (*   s      <- s 2^{-gs n [sw4]} + source                                  *)
 (* Every quantity is A + B ln2 with A, B exact (module Exact); the harness *)
 (* supplies only the floating-point constants pi/2 and ln 2.               *)
+(* Time-dependent variant (td = 1, only without source terms, clock       *)
+(* starting at 0): HI(t) = (pi/2)(1+2t) diag(h), GammaRho(t) = ln2 (2t)    *)
+(* diag(g), GammaScalar(t) = ln2 (2t) gs, whose integrals over [T0,T1] are *)
+(* (T1+T1^2)-(T0+T0^2) resp. T1^2-T0^2 units: exact again, and wrong if a  *)
+(* term function is ever called with the wrong time.                       *)
 (* A history is a sequence of segments (switch set, ticks); switching      *)
 (* terms between segments, zero-length segments and moving the object do   *)
 (* not enter the flow except through the switch set of each segment.       *)
 (***************************************************************************)
 EXTENDS Exact, Json
 
-CONSTANTS NCfg, MaxSeg, Ticks, FirstSw, LaterSw
+CONSTANTS NCfg, MaxSeg, Ticks, FirstSw, LaterSw,
+          TDep        \* set of modes explored: 0 = constant terms, 1 = time-dependent terms (see below)
 
 VARIABLES c, hist, rho, sc
 vars == <<c, hist, rho, sc>>
@@ -53,6 +59,21 @@ InitRho(k) == [ei \in 0..(Nx(k)-1) |-> [i \in 0..(Nrho(k)-1) |->
                  [r \in 1..Nsun(k) |-> [q \in 1..Nsun(k) |-> <<M[r][q], S0>>]]]]
 InitSc(k) == [ei \in 0..(Nx(k)-1) |-> [is \in 0..(Nsc(k)-1) |-> <<SZ(1 + ei + is), S0>>]]
 
+\* effective numbers of units for the coherent and the damping terms over [T0, T0+n]
+NH(td,T0,n) == IF td = 1 THEN ((T0+n) + (T0+n)*(T0+n)) - (T0 + T0*T0) ELSE n
+NG(td,T0,n) == IF td = 1 THEN (T0+n)*(T0+n) - T0*T0 ELSE n
+FlowRhoT(k, R, sw, n, td, T0) ==
+  [ei \in 0..(Nx(k)-1) |-> [i \in 0..(Nrho(k)-1) |->
+    [r \in 1..Nsun(k) |-> [q \in 1..Nsun(k) |->
+      LET x == R[ei][i][r][q]
+          hj == TabH(ei,i,r-1)  hk == TabH(ei,i,q-1)
+          gj == TabG(ei,i,r-1)  gk == TabG(ei,i,q-1)
+      IN IF r # q
+         THEN QMul(SMul(IF Bit(sw,1) THEN Zeta(6*(hj-hk)*NH(td,T0,n)) ELSE S1, IF Bit(sw,2) THEN Half((gj+gk)*NG(td,T0,n)) ELSE S1), x)
+         ELSE QMul(IF Bit(sw,2) THEN Half(2*gj*NG(td,T0,n)) ELSE S1, x)]]]]
+FlowScT(k, X, sw, n, td, T0) ==
+  [ei \in 0..(Nx(k)-1) |-> [is \in 0..(Nsc(k)-1) |->
+     QMul(IF Bit(sw,4) THEN Half(TabGs(ei,is)*NG(td,T0,n)) ELSE S1, X[ei][is])]]
 FlowRho(k, R, sw, n) ==
   [ei \in 0..(Nx(k)-1) |-> [i \in 0..(Nrho(k)-1) |->
     [r \in 1..Nsun(k) |-> [q \in 1..Nsun(k) |->
@@ -78,10 +99,19 @@ FlowSc(k, X, sw, n) ==
         ELSE QAddB(y, SZ(ss*n))]]
 
 Init == c \in 1..NCfg /\ hist = <<>> /\ rho = InitRho(c) /\ sc = InitSc(c)
-Seg(sw, n) == /\ Len(hist) < MaxSeg
-              /\ hist' = Append(hist, <<sw, n>>)
-              /\ rho' = FlowRho(c, rho, sw, n) /\ sc' = FlowSc(c, sc, sw, n) /\ c' = c
-Next == \E sw \in (IF hist = <<>> THEN FirstSw ELSE LaterSw), n \in Ticks : Seg(sw, n)
+RECURSIVE Elapsed(_,_)
+Elapsed(h, i) == IF i = 0 THEN 0 ELSE Elapsed(h, i-1) + h[i][2]
+NoSource(sw) == ~Bit(sw,3) /\ ~Bit(sw,5)
+Seg(sw, n, td) == /\ Len(hist) < MaxSeg
+                  /\ (td = 1 => NoSource(sw) /\ \A i \in 1..Len(hist) : hist[i][3] = 1)   \* a time-dependent history is so throughout
+                  /\ (td = 1 => Elapsed(hist, Len(hist)) + n <= 2)                          \* keeps 2^(g T^2) within 32 bits
+                  /\ (td = 0 => \A i \in 1..Len(hist) : hist[i][3] = 0)
+                  /\ hist' = Append(hist, <<sw, n, td>>)
+                  /\ LET T0 == Elapsed(hist, Len(hist)) IN
+                     IF td = 1 THEN rho' = FlowRhoT(c, rho, sw, n, 1, T0) /\ sc' = FlowScT(c, sc, sw, n, 1, T0)
+                     ELSE rho' = FlowRho(c, rho, sw, n) /\ sc' = FlowSc(c, sc, sw, n)
+                  /\ c' = c
+Next == \E sw \in (IF hist = <<>> THEN FirstSw ELSE LaterSw), n \in Ticks, td \in TDep : Seg(sw, n, td)
 Spec == Init /\ [][Next]_vars
 
 \* laws of the flow itself ----------------------------------------------------------------
@@ -90,11 +120,16 @@ RhoEq(k,R1,R2) == \A ei \in 0..(Nx(k)-1) : \A i \in 0..(Nrho(k)-1) : \A r \in 1.
 ScEq(k,X1,X2) == \A ei \in 0..(Nx(k)-1) : \A is \in 0..(Nsc(k)-1) : QEq(X1[ei][is], X2[ei][is])
 \* semigroup: two segments with the same switch set equal one segment over the total interval; zero ticks is the identity
 Semigroup ==
-  (Len(hist) = 2 /\ hist[1][1] = hist[2][1]) =>
+  (Len(hist) = 2 /\ hist[1][1] = hist[2][1] /\ hist[1][3] = 0) =>
      /\ RhoEq(c, rho, FlowRho(c, InitRho(c), hist[1][1], hist[1][2] + hist[2][2]))
      /\ ScEq(c, sc, FlowSc(c, InitSc(c), hist[1][1], hist[1][2] + hist[2][2]))
+\* the time-dependent flow composes over adjacent intervals as well
+SemigroupT ==
+  (Len(hist) = 2 /\ hist[1][1] = hist[2][1] /\ hist[1][3] = 1) =>
+     /\ RhoEq(c, rho, FlowRhoT(c, InitRho(c), hist[1][1], hist[1][2] + hist[2][2], 1, 0))
+     /\ ScEq(c, sc, FlowScT(c, InitSc(c), hist[1][1], hist[1][2] + hist[2][2], 1, 0))
 ZeroIsIdentity ==
-  (Len(hist) >= 1 /\ hist[Len(hist)][2] = 0) =>
+  (Len(hist) >= 1 /\ hist[Len(hist)][2] = 0 /\ hist[1][3] = 0) =>
      /\ RhoEq(c, rho, IF Len(hist) = 1 THEN InitRho(c) ELSE FlowRho(c, InitRho(c), hist[1][1], hist[1][2]))
      /\ ScEq(c, sc, IF Len(hist) = 1 THEN InitSc(c) ELSE FlowSc(c, InitSc(c), hist[1][1], hist[1][2]))
 \* the evolved matrices stay Hermitian with real diagonal; all terms off changes nothing
